@@ -101,7 +101,7 @@ ADDENDA = {
     "C05": "Also: config_cwd_is_process_cwd / dest_is_child_of_process_cwd (entry point builds the Config; $PWD never consulted).",
     "C07": "Also: listener_lifetime, port_closed_after_success / _once_fired / _by_deadline; late arrivals after every outcome.",
     "C08": "Environment includes hostile mailbox participants (DESIGN 11.7).",
-    "C09": "Environment includes hostile mailbox participants (DESIGN 11.7).",
+    "C09": "Also: key_exchange_always_completable — from every reachable state in which a participant with our code exists and nothing has ended the session, a finite cooperative continuation verifies the peer's version, gets our PAKE/version echoed and empties Send's queue (backward-fixpoint certificate, native_decide, lifted by a kernel-checked soundness theorem): no reachable state is a trap for the session; fairness itself is not proved. Environment includes hostile mailbox participants and two-step connection establishment (DESIGN 11.7).",
     "C10": "Also: parked-record queue and per-subchannel pending data in the model (ARQ invariant over parked + in flight + unsent), per-step L4 theorems; second world with the real DilatedConnectionProtocol/Connector turn and Noise chunk boundaries. Partial: global L4 composition stated as a def + per-step theorems.",
     "C11": "Also: per-direction reachability (one_direction_reachable; reconverge_no_trap in all three networks).",
     "C12": "Also: explicit 32-bit and chunk-size boundary corpus through whole connections.",
